@@ -479,9 +479,17 @@ pub(crate) fn model_lines<S: Shape>(
     hit: &[bool; MAXL],
     cfg: &Cfg,
 ) -> ([u8; MAXL], usize, bool) {
-    // every loop here has a CONCRETE bound (S::NL) and symbolic guards, so
+    model_lines_n::<S>(hit, cfg, S::NL)
+}
+
+/// the same model over the first `nl` lines of the shape only
+pub(crate) fn model_lines_n<S: Shape>(
+    hit: &[bool; MAXL],
+    cfg: &Cfg,
+    nl: usize,
+) -> ([u8; MAXL], usize, bool) {
+    // every loop here has a CONCRETE bound and symbolic guards, so
     // symex folds the loop structure whatever the symbolic values are
-    let nl = S::NL;
     let mut sel = [false; MAXL];
     let mut i = 0;
     while i < nl {
@@ -548,21 +556,40 @@ pub(crate) fn model_events<S: Shape>(
     hit: &[bool; MAXL],
     cfg: &Cfg,
 ) -> (RecSink, bool) {
-    let (kind, _cut, stopped) = model_lines::<S>(hit, cfg);
+    model_events_upto::<S>(hit, cfg, S::HAY.len())
+}
+
+/// Expected event stream when only the first `upto` bytes of the shape are
+/// searched (the input is cut there: a last line may be partial).
+pub(crate) fn model_events_upto<S: Shape>(
+    hit: &[bool; MAXL],
+    cfg: &Cfg,
+    upto: usize,
+) -> (RecSink, bool) {
+    let mut nl_eff = 0;
+    let mut i = 0;
+    while i < S::NL {
+        if S::LSTART[i] < upto {
+            nl_eff = i + 1;
+        }
+        i += 1;
+    }
+    let (kind, _cut, stopped) = model_lines_n::<S>(hit, cfg, nl_eff);
     let mut out = RecSink::new(S::HAY);
     let _ = out.push(Ev { kind: K_BEGIN, ..EV0 });
     let any_ctx = !cfg.passthru && (cfg.a > 0 || cfg.b > 0);
     let mut prev: usize = usize::MAX;
     let mut i = 0;
     while i < S::NL {
-        if kind[i] != 0 {
+        if i < nl_eff && kind[i] != 0 {
             if any_ctx && prev != usize::MAX && i > prev + 1 {
                 let _ = out.push(Ev { kind: K_BREAK, ..EV0 });
             }
+            let end = if S::LSTART[i + 1] < upto { S::LSTART[i + 1] } else { upto };
             let _ = out.push(Ev {
                 kind: kind[i],
                 off: S::LSTART[i] as u64,
-                len: S::LSTART[i + 1] - S::LSTART[i],
+                len: end - S::LSTART[i],
                 lnum: if cfg.lnum { (i + 1) as u64 } else { 0 },
                 ok: true,
                 aux: 0,
@@ -573,7 +600,7 @@ pub(crate) fn model_events<S: Shape>(
     }
     let _ = out.push(Ev {
         kind: K_FINISH,
-        off: S::HAY.len() as u64,
+        off: upto as u64,
         ..EV0
     });
     (out, !stopped)
